@@ -4,6 +4,9 @@ import Continuum.Spec.Tables
 import Continuum.Uow
 import Continuum.Spec.Uow
 import Continuum.Schema
+import Continuum.Rel
+import Continuum.Mgr
+import Continuum.Lemmas.UowLive
 
 /-!
 # Line-protocol driver
@@ -20,7 +23,7 @@ correspondence comparison.  Imports model/spec files only (core Lean, no Mathlib
 
 open Continuum Continuum.Wire
 
-abbrev Key := List Int
+
 
 structure DState where
   strategy : Strategy := .validity
@@ -36,6 +39,8 @@ structure DState where
   mBefore : Obs := {}         -- the model's observation at the last transaction boundary
   wf : Bool := true           -- every event so far satisfied the contract EvOK
   schIn : Option Schema.TblIn := none
+  arows : List ARow := []
+  mgr : Mgr := {}
   schOut : Option Schema.TblOut := none
   wfFirst : String := "-"     -- the first event that did not
   nev : Nat := 0
@@ -152,6 +157,20 @@ def showName (n : Schema.Name) : String := if n.isEmpty then "-" else ".".interc
 def showVCol (c : Schema.VCol) : String :=
   s!"{showName c.name} {c.typ} {showBool c.pk} {showBool c.nullable} {showBool c.unique} {showBool c.autoinc} {showBool c.onupdate} {showBool c.fk}"
 
+
+/-! ## relationship level (C04) -/
+
+def parseAns1 (s : String) : Option (Key × Nat) :=
+  match s.splitOn ":" with
+  | [k, tx] => do pure ((← parseKey k), (← parseNat tx))
+  | _ => none
+
+def parseAns (s : String) : Option (List (Key × Nat)) := parseSemi parseAns1 s
+
+def showAns (l : List (Key × Nat)) : String := semi (l.map (fun a => s!"{showKey a.1}:{a.2}"))
+
+def pickTable (st : DState) (w : String) : VTable Key := if w == "t2" then st.t2 else st.t
+
 def bad : Option String := some "bad-op"
 
 def handle (st : DState) (toks : List String) : DState × Option String :=
@@ -198,7 +217,7 @@ def handle (st : DState) (toks : List String) : DState × Option String :=
         | .commit => true
         | .rollback => true
         | _ => false
-      let ok : Bool := decide (EvOK st.cfg st.st e)
+      let ok : Bool := decide (EvOK st.cfg st.st e) && decide (UpdShapeOK st.cfg st.st e)
       let first := if st.wf && !ok then s!"{st.nev}:{rest.headD "?"}" else st.wfFirst
       ({ st with st := step st.cfg st.st e, segEvs := if isEnd then st.segEvs else st.segEvs ++ [e],
                  wf := st.wf && ok, wfFirst := first, nev := st.nev + 1 }, none)
@@ -239,7 +258,7 @@ def handle (st : DState) (toks : List String) : DState × Option String :=
     let m01 := s!"{decideB (mseg.outcome = .commit → C01.newestIsLive mseg)}{decideB (mseg.outcome = .commit → C01.removedIsDelete mseg)}{decideB (mseg.outcome = .commit → C01.onlyRealChanges st.cfg mseg)}{decideB (mseg.outcome = .commit → C01.changedHasRow mseg)}{decideB (mseg.outcome = .commit → C01.deleteVals st.cfg mseg)}{decideB (mseg.outcome = .commit → C01.pastKept mseg)}"
     let mout := s!"{m01} {decideB (C02.Holds st.cfg mseg)} {decideB (C03.Holds st.cfg mseg.after.db.versions)} {decideB (C06.DbHolds mseg)} {decideB (C11.Holds st.cfg mseg)} {decideB (C17.Holds st.cfg mseg)}"
     ({ st with segBefore := st.pend, segEvs := [], pend := {}, mBefore := modelObs st.st },
-      some s!"{out} | {mout} | {showBool st.wf} {st.wfFirst} {decideB (CfgOK st.cfg)}")
+      some s!"{out} | {mout} | {showBool st.wf} {st.wfFirst} {decideB (CfgOK st.cfg ∧ TablesNodup st.cfg ∧ ColsInRange st.cfg)}")
   | ["qdump", _] => (st, some (showModelDump st.st))
   | ["s12in", name, schema, hasModel, single, excl, incl, f1, f2, validity, tx, en, op, mt] =>
     match parseName name, parseOName schema, parseBool hasModel, parseBool single, parseNames excl, parseNames incl,
@@ -277,6 +296,55 @@ def handle (st : DState) (toks : List String) : DState × Option String :=
       let m := Schema.deriveTable i
       (st, some s!"{decideB (Schema.SchemaOK i o)} {decideB (Schema.InOK i)} | {showName m.name} | {";".intercalate (m.cols.map showVCol)}")
     | _, _ => (st, bad)
+  | ["arow", tbl, link, tx, op] =>
+    match parseNat tbl, parseKey link, parseNat tx, parseOp op with
+    | some tbl, some link, some tx, some op =>
+      ({ st with arows := st.arows ++ [{ tbl := tbl, link := link, tx := tx, op := op }] }, none)
+    | _, _, _, _ => (st, bad)
+  | ["q04m2o", w, fk, T, ans] =>
+    match parseNat T with
+    | some T =>
+      let fk? : Option (Option Key) := if fk == "N" then some none else (parseKey fk).map some
+      let ans? : Option (Option (Key × Nat)) := if ans == "N" then some none else (parseAns1 ans).map some
+      match fk?, ans? with
+      | some fk, some ans =>
+        let remote := pickTable st w
+        let m := (manyToOne remote fk T).map (fun r => (r.key, r.tx))
+        (st, some s!"{decideB (C04.M2OHolds remote fk T ans)} | {match m with | some a => showAns [a] | none => "N"}")
+      | _, _ => (st, bad)
+    | none => (st, bad)
+  | ["q04o2m", w, fkIdx, pk, T, ans] =>
+    match parseNat fkIdx, parseKey pk, parseNat T, parseAns ans with
+    | some fkIdx, some pk, some T, some ans =>
+      let remote := pickTable st w
+      let m := (oneToMany remote fkIdx pk T).map (fun r => (r.key, r.tx))
+      (st, some s!"{decideB (C04.O2MHolds remote fkIdx pk T ans)} | {showAns m}")
+    | _, _, _, _ => (st, bad)
+  | ["q04m2m", w, tbl, lf, pk, T, ans] =>
+    match parseNat tbl, parseBool lf, parseKey pk, parseNat T, parseAns ans with
+    | some tbl, some lf, some pk, some T, some ans =>
+      let remote := pickTable st w
+      let m := (manyToMany remote st.arows tbl lf pk T).map (fun r => (r.key, r.tx))
+      (st, some s!"{decideB (C04.M2MHolds remote st.arows tbl lf pk T ans)} | {showAns m}")
+    | _, _, _, _, _ => (st, bad)
+  | "mev" :: sess :: conn :: rest =>
+    match parseNat sess, parseNat conn, parseEv rest with
+    | some sess, some conn, some e => ({ st with mgr := mgrStep st.cfg st.mgr (.ev sess conn e) }, none)
+    | _, _, _ => (st, bad)
+  | ["mengrb", conn] =>
+    match parseNat conn with
+    | some conn => ({ st with mgr := mgrStep st.cfg st.mgr (.engineRollback conn) }, none)
+    | none => (st, bad)
+  | ["mclose", conn] =>
+    match parseNat conn with
+    | some conn => ({ st with mgr := mgrStep st.cfg st.mgr (.close conn) }, none)
+    | none => (st, bad)
+  | ["qmdump", conn] =>
+    match parseNat conn with
+    | some conn =>
+      let scm := semi (st.mgr.scm.map (fun (p : Nat × Nat) => s!"{p.1}:{p.2}"))
+      (st, some s!"{showModelDump (st.mgr.get conn)} | {scm} | {showNats st.mgr.liveUows}")
+    | none => (st, bad)
   | ["q08", k, vs, idx, nxt, prv] =>
     match parseKey k, parseNats vs, parseNats idx, parseONats nxt, parseONats prv with
     | some k, some vs, some idx, some nxt, some prv =>
